@@ -260,3 +260,12 @@ fn test_factor_base_size() {
     assert!(7000 <= b224 && b224 <= 15000);
     assert!(30_000 <= b256 && b256 <= 50_000);
 }
+
+// ---------------------------------------------------------------------------
+// Verification hooks (add-only, compiled only with `--cfg yamaquasi_verif`).
+
+#[cfg(yamaquasi_verif)]
+#[doc(hidden)]
+pub fn verif_stage2_table() -> &'static [(f64, u64, u64)] {
+    STAGE2_PARAMS
+}
